@@ -151,7 +151,16 @@ def subscription_two_fields_behind_a_fragment(rng, doc, s):
         for i, o in enumerate(doc.operations):
             o.name = o.name or "N%d" % i
     two = list(op.selection) + [opgen.OField("__typename", s.subscription, "second")]
-    if rng.random() < 0.5:
+    r = rng.random()
+    if r < 0.35:
+        # an earlier, valid subscription spreads the same fragment: what was looked at for one operation says
+        # nothing about the next
+        name = "SharedRoot%d" % len(doc.fragments)
+        doc.fragments[name] = opgen.OFragment(name, s.subscription, list(op.selection))
+        first = opgen.OOperation("subscription", "SubFirst%d" % len(doc.operations), [opgen.OSpread(name)], copy.deepcopy(op.variables))
+        doc.operations.insert(doc.operations.index(op), first)
+        op.selection[:] = [opgen.OSpread(name), opgen.OField("__typename", s.subscription, "second")]
+    elif r < 0.65:
         op.selection[:] = [opgen.OInline(s.subscription if rng.random() < 0.5 else None, two)]
     else:
         name = "SubRootFields%d" % len(doc.fragments)
